@@ -15,7 +15,7 @@ LEVEL = "exploration"
 BUDGET_S = {"quick": 45, "thorough": 600}
 FLOOR = {"quick": 4000, "thorough": 40000}
 MUST_REACH = ("subnet_of_judged", "member_in_member_judged", "member_in_group_judged", "positive_answers_judged",
-              "negative_answers_judged")
+              "negative_answers_judged", "member_mutations_then_requery")
 RULE = ("related pairs of addresses: the second is derived from the first by narrowing / widening mask bits, flipping a "
         "base bit under or outside the mask, or drawn independently (about half of the pairs are contained); hosts, "
         "prefixes, contiguous and non-contiguous wildcards (k<=6, a few up to 9), any; every spelling of both platforms; "
@@ -268,6 +268,26 @@ def execute(ctx, case: dict) -> None:
             a.subnet_of(b)
             b.subnet_of(a)
             functions.subnet_of(top=b, bottom=a)
+            # history: change group members in place, then ask again
+            for mut in case.get("muts", []):
+                tgt = a if mut["who"] == "a" else b
+                if not tgt.addrgroup:
+                    continue
+                try:
+                    if mut["op"] == "append":
+                        tgt.items.append(Address(mut["text"], platform=platform, max_ncwb=20))
+                    elif mut["op"] == "pop" and len(tgt.items) > 1:
+                        tgt.items.pop(mut["idx"] % len(tgt.items))
+                    elif mut["op"] == "line" and tgt.items:
+                        tgt.items[mut["idx"] % len(tgt.items)].line = mut["text"]
+                    else:
+                        continue
+                except (ValueError, TypeError):
+                    continue
+                ctx.count("member_mutations_then_requery")
+                a.subnet_of(b)
+                b.subnet_of(a)
+                functions.subnet_of(top=b, bottom=a)
         elif kind == "ag":
             a = AddressAg(case["a"], platform=platform, max_ncwb=20)
             b = AddressAg(case["b"], platform=platform, max_ncwb=20)
@@ -320,6 +340,11 @@ def gen_cases(ctx):
                     case["a"] = f"{word} GA"
                     case["a_items"] = [spell(rng, m, platform, "Address") for m in members]
                 case["rel"] = "grp-" + rel
+                if rng.random() < 0.6:
+                    case["muts"] = [{"who": rng.choice(side.replace("ab", "a b").split() if side == "ab" else [side]),
+                                     "op": rng.choice(["append", "pop", "line", "line"]), "idx": rng.randrange(4),
+                                     "text": spell(rng, derive(rng, rng.choice([ca, cb]))[0], platform, "Address")}
+                                    for _ in range(rng.randint(1, 3))]
             yield case
         elif roll < 0.8:
             contiguous_only = platform == "ios" or rng.random() < 0.6
